@@ -48,6 +48,16 @@ func monC17(c *VCtx) {
 			}
 		}
 	}
+	// a DeleteSession entry (expiry sweep, DELETE request, /kill) for a live session ends it, whatever its quit
+	// message says
+	if e.Type == robust.DeleteSession {
+		if pre := v.Sessions[e.Session]; pre != nil {
+			c.Count("c17_delete_entries_for_live_sessions")
+			if _, still := i.sessions[e.Session]; still {
+				c.Report("a DeleteSession entry does not end the session", fmt.Sprintf("entry %s: %s (%q) is still there", e.String(), vid(e.Session), pre.Nick))
+			}
+		}
+	}
 	// sessions ended by this entry
 	var ended []*VSess
 	for id, s := range v.Sessions {
